@@ -33,6 +33,7 @@ def run(tier, seed):
             elif len(r2["modules"]) > 1:
                 r2["modules"].pop(0)
             recipes.append(r2)
+    recipes += [dict(r_, repeat=True) for r_ in ac.curated_many_refs(rng, 2 if q else 6)]
     traces = ac.validate(run, "cited-assemblies", recipes)
     run.extra["inputs_with_references"] = sum(1 for t in traces for x in [t[0]["vec"]] + t[0]["mods"] if x["refs"])
     run.extra["cited_input_features"] = sum(1 for t in traces for x in [t[0]["vec"]] + t[0]["mods"] for f in x["feats"] if f["cites"])
